@@ -42,10 +42,10 @@ RULE = (
     "with (normalize_amp, strip_suffix). Stream: the regression corpus (minimal inputs of D16, D20, D26, of the defects fixed by 764806b "
     "(control characters before the scheme), 505f39b (punycode label decoding to 'amp-…'), 6a69016 (upper-case redirect target), 0f0c826 "
     "(result without netloc), the trailing-dot and public-suffix-only hosts, inputs outside the reading that must not be flagged) under all "
-    "16 configurations; then the enumerated scope: every host of <= 2 (quick: all of <= 1 label + a seeded sample of the 2-label ones) / "
-    "<= 3 (thorough) labels from the irrelevant / look-alike / amp- / language / punycode alphabet in front of every base of a list of "
+    "16 configurations; then the enumerated scope: every host of <= 1 label + a seeded sample of the 2-label ones (quick) / every host of "
+    "<= 2 labels + a seeded sample of the 3-label ones (thorough), labels from the irrelevant / look-alike / amp- / language / punycode alphabet in front of every base of a list of "
     "registrable domains, multi-label suffixes, suffix-only hosts and trailing-dot hosts, as bare hostname (all 4 configurations) and as URL "
-    "(quick: one random configuration; thorough: all 16); then seeded random URLs of the shared normalize/fingerprint grammar (scheme forms, "
+    "(quick: one random configuration; thorough: four); then seeded random URLs of the shared normalize/fingerprint grammar (scheme forms, "
     "userinfo, ports, index/AMP path tails, tracking items, fragments, unparseable strings, redirect-carrying URLs incl. upper-case "
     "targets) wrapped in leading/trailing whitespace and control characters or with one inserted inside, each under one random "
     "configuration, and random bare hostnames. For every case the model lines are: the two hostname helpers (shared Driver.Norm handlers; "
@@ -746,17 +746,21 @@ def cases(rng, tier):
         small = [h for h in hosts if h.count(".") <= 3]
         rest = [h for h in hosts if h.count(".") > 3]
         hosts = small + rng.sample(rest, min(len(rest), 800))
+        ncfg = 1
+    else:
+        # the whole <=2-label scope, a seeded sample of the 3-label one
+        small = [h for h in enumerated_hosts(2)]
+        rest = hosts[len(small):]
+        hosts = small + rng.sample(rest, min(len(rest), 12000))
+        ncfg = 4
     for h in hosts:
         for amp in (True, False):
             for ss in (True, False):
                 yield {"k": "host", "h": h, "amp": amp, "ss": ss}
         pre = rng.choice(["http://", "", "//", "HTTPS://", "http://u:p@"])
         post = rng.choice(["", "/", ":8080/x", "/index.html?utm_source=x", "?a=1#f"])
-        if tier == "quick":
-            yield _url(pre + h + post, rng.choice(CONFIGS))
-        else:
-            for cfg in CONFIGS:
-                yield _url(pre + h + post, cfg)
+        for cfg in rng.sample(CONFIGS, ncfg):
+            yield _url(pre + h + post, cfg)
     n = 3000 if tier == "quick" else 100000
     for _ in range(n):
         u = random_case_url(rng)
